@@ -42,6 +42,34 @@ type Cfg struct {
 	// that cannot load the serialization: sanitize-dump-payload, an encoding it does not know); the tool then replays the value
 	// with native commands
 	BadFormatEvery int `json:"badFormatEvery,omitempty"`
+	// ReplaceHashTag (replay.replaceHashTag): the target key is the source key without its first '{' and its first '}'
+	ReplaceHashTag bool `json:"replaceHashTag,omitempty"`
+}
+
+// TargetKey: the name a snapshot key has on the target.
+func (c Cfg) TargetKey(k []byte) []byte {
+	if !c.ReplaceHashTag {
+		return k
+	}
+	t := bytes.Replace(append([]byte(nil), k...), []byte("{"), nil, 1)
+	return bytes.Replace(t, []byte("}"), nil, 1)
+}
+
+// Normalize switches key rewriting off when two snapshot keys of one database would collapse into one target key (the reference
+// could not tell which value the target has to end up with).
+func (c *Cfg) Normalize(items []rdbgen.Item) {
+	if !c.ReplaceHashTag {
+		return
+	}
+	seen := map[string]bool{}
+	for _, it := range items {
+		id := fmt.Sprintf("%d/%s", it.DB, c.TargetKey([]byte(it.Key)))
+		if seen[id] || len(c.TargetKey([]byte(it.Key))) == 0 {
+			c.ReplaceHashTag = false
+			return
+		}
+		seen[id] = true
+	}
 }
 
 // RefuseRestores arms the double according to BadFormatEvery.
@@ -53,7 +81,7 @@ func RefuseRestores(c Cfg, srv *fake.Server, metas []rdbgen.Meta) {
 	srv.BadFormatKeys = map[string]bool{}
 	for i, m := range metas {
 		if i%c.BadFormatEvery == 0 {
-			srv.BadFormatKeys[string(m.Key)] = true
+			srv.BadFormatKeys[string(c.TargetKey(m.Key))] = true
 		}
 	}
 	srv.Unlock()
@@ -118,6 +146,7 @@ func OutputConfig(c Cfg, addr string) syncer.RedisOutputConfig {
 	oc.KeyExists = c.KeyExists
 	oc.Redis.Version = c.TargetVer
 	oc.BisyncEnabled = c.Bisync
+	oc.ReplaceHashTag = c.ReplaceHashTag
 	return oc
 }
 
@@ -277,7 +306,7 @@ func CheckRestorePayloads(c Cfg, srv *fake.Server, metas []rdbgen.Meta) []Mismat
 	var out []Mismatch
 	byKey := map[string]rdbgen.Meta{}
 	for _, m := range metas {
-		byKey[fmt.Sprintf("%d/%s", c.MapDB(m.DB), m.Key)] = m
+		byKey[fmt.Sprintf("%d/%s", c.MapDB(m.DB), c.TargetKey(m.Key))] = m
 	}
 	srv.Lock()
 	calls := append([]fake.RestoreCall{}, srv.RestoreSeen...)
@@ -329,12 +358,12 @@ func CompareKeyspace(c Cfg, ks *fake.Keyspace, metas []rdbgen.Meta, items []rdbg
 	ge7 := c.TargetVer >= "7"
 	want := map[string]bool{}
 	for i, m := range metas {
-		id := fmt.Sprintf("%d/%s", c.MapDB(m.DB), m.Key)
+		id := fmt.Sprintf("%d/%s", c.MapDB(m.DB), c.TargetKey(m.Key))
 		want[id] = true
 		if skip[id] {
 			continue
 		}
-		e := ks.DBs[c.MapDB(m.DB)][string(m.Key)]
+		e := ks.DBs[c.MapDB(m.DB)][string(c.TargetKey(m.Key))]
 		past := m.ExpireAt != 0 && m.ExpireAt <= nowMs
 		if past {
 			if e != nil && (e.ExpireAt == 0 || e.ExpireAt > nowMs+60_000) {
